@@ -790,11 +790,15 @@ func check(args []string) int {
 			fb, _ := json.MarshalIndent(full, "", " ")
 			os.WriteFile(strings.TrimSuffix(path, ".json")+".full.json", fb, 0o644)
 			m := minimise(bin, work, rf, f.class, 90*time.Second)
-			if r, fr, _ := replayOnce(bin, work, m, "minconfirm"); classOf(r, fr) == f.class {
-				m.LogHash = r.Hash
-				m.Log = r.Sample
-				if r.Viol != nil {
-					m.Violation = &Violation{Class: r.Viol.Class, Detail: r.Viol.Detail}
+			if r, fr, se := replayOnce(bin, work, m, "minconfirm"); classOf(r, fr) == f.class {
+				if r != nil {
+					m.LogHash = r.Hash
+					m.Log = r.Sample
+					if r.Viol != nil {
+						m.Violation = &Violation{Class: r.Viol.Class, Detail: r.Viol.Detail}
+					}
+				} else {
+					f.stderr = se
 				}
 				rf = m
 			}
